@@ -13,6 +13,7 @@ import (
 	"runtime"
 	"strings"
 	"sync"
+	"sync/atomic"
 	"time"
 
 	res "github.com/jirenius/go-res"
@@ -26,6 +27,8 @@ type rec = map[string]interface{}
 
 // one query event under observation
 type qeObs struct {
+	busy    int32 // a blocking callback of the group is inside
+	overlap int32 // a query callback started meanwhile
 	mu      sync.Mutex
 	cblog   []string
 	recv    []string
@@ -68,7 +71,8 @@ func newWorld(seed int64, gated bool, dur time.Duration, failSub bool) *world {
 	s.SetLogger(nil)
 	s.SetWorkerCount(2)
 	s.SetQueryEventDuration(dur)
-	s.Handle("q", res.GetCollection(func(r res.CollectionRequest) { r.Collection([]int{}) }))
+	s.Handle("q", res.GetCollection(func(r res.CollectionRequest) { r.Collection([]int{}) }), res.Group("shared"))
+	s.Handle("other", res.GetModel(func(r res.ModelRequest) { r.NotFound() }), res.Group("shared"))
 	w.svc = s
 	w.conn = rconn.New(nil)
 	if failSub {
@@ -103,6 +107,9 @@ func (w *world) startQuery() bool {
 	err := w.svc.With("test.q", func(r res.Resource) {
 		r.QueryEvent(func(qr res.QueryRequest) {
 			o := w.obs
+			if atomic.LoadInt32(&o.busy) != 0 {
+				atomic.StoreInt32(&o.overlap, 1)
+			}
 			if qr == nil {
 				o.mu.Lock()
 				o.cblog = append(o.cblog, "nil")
@@ -197,7 +204,7 @@ func (w *world) record(ids []string, failed, expired bool, src string) rec {
 	recv := append([]string{}, o.recv...)
 	bad := append([]bool{}, o.bad...)
 	cb := append([]string{}, o.cblog...)
-	return rec{"judge": "all", "recv": recv, "badpayload": bad, "cblog": cb, "replies": replies, "failed": failed, "published": published,
+	return rec{"overlap": atomic.LoadInt32(&o.overlap) != 0, "judge": "all", "recv": recv, "badpayload": bad, "cblog": cb, "replies": replies, "failed": failed, "published": published,
 		"expired": expired, "exited": listenerCount() == 0, "dbg": src}
 }
 
@@ -268,6 +275,33 @@ func randomHistory(seed int64, failSub bool) rec {
 	return w.record(ids, failSub, true, fmt.Sprintf("random history seed %d failSub=%v behaviours=%v", seed, failSub, w.beh))
 }
 
+// groupHistory: the resource's group is kept busy by another resource of the same group while
+// query requests arrive and the query event expires; no query callback may run meanwhile.
+func groupHistory(seed int64) rec {
+	w := newWorld(seed, false, 4*time.Millisecond, false)
+	defer w.close()
+	if !w.startQuery() {
+		return nil
+	}
+	release := make(chan struct{})
+	inside := make(chan struct{})
+	w.svc.With("test.other", func(res.Resource) {
+		atomic.StoreInt32(&w.obs.busy, 1)
+		close(inside)
+		<-release
+		atomic.StoreInt32(&w.obs.busy, 0)
+	})
+	<-inside
+	ids := []string{"r1", "r2"}
+	for _, id := range ids {
+		w.sendReq(id)
+	}
+	time.Sleep(12 * time.Millisecond) // requests queued, query event expired: all behind the blocker
+	close(release)
+	time.Sleep(20 * time.Millisecond)
+	return w.record(ids, false, true, "group kept busy by test.other while 2 requests arrive and the query event expires")
+}
+
 // longHistory: many query events; afterwards nothing may be left running.
 func longHistory(seed int64, n int) rec {
 	w := newWorld(seed, false, time.Millisecond, false)
@@ -289,7 +323,7 @@ func longHistory(seed int64, n int) rec {
 		}
 	}
 	left := listenerCount()
-	return rec{"judge": "released", "recv": []string{}, "badpayload": []bool{}, "cblog": []string{"nil"}, "replies": [][]interface{}{}, "failed": false, "published": true,
+	return rec{"overlap": false, "judge": "released", "recv": []string{}, "badpayload": []bool{}, "cblog": []string{"nil"}, "replies": [][]interface{}{}, "failed": false, "published": true,
 		"expired": true, "exited": left == 0, "dbg": fmt.Sprintf("long history: %d query events, %d nil callbacks, %d listener goroutines left", n, nils, left)}
 }
 
@@ -338,13 +372,18 @@ func Run(c *core.Ctx) {
 			recs = append(recs, rr)
 		}
 	}
+	for i := 0; i < c.Pick(3, 20); i++ {
+		if rr := groupHistory(c.Seed + int64(i)); rr != nil {
+			recs = append(recs, rr)
+		}
+	}
 	for _, n := range []int{1, 10, c.Pick(60, 200)} {
 		recs = append(recs, longHistory(c.Seed, n))
 	}
 	var bad []int
 	core.CheckRecords(c, "TraceQueryObs", "TraceQueryObs.cfg", recs, nil, func(i int, r interface{}, inv string) { bad = append(bad, i) })
 	if len(bad) > 0 {
-		clauses := []string{"one-reply", "callback-per-request", "nil-once", "nil-at-most-once", "nil-last", "failed-sub", "released"}
+		clauses := []string{"serialized", "one-reply", "callback-per-request", "nil-once", "nil-at-most-once", "nil-last", "failed-sub", "released"}
 		var recs2 []interface{}
 		var which []string
 		for _, i := range bad {
